@@ -125,7 +125,6 @@ func callLimited(f rt.Value, args ...rt.Value) (r res) {
 		return rt.Call(t, f, args, term)
 	})
 	if ctx.Status() == rt.StatusKilled {
-		theL = nil
 		return res{status: "err", err: "context killed: memory limit"}
 	}
 	if err != nil {
